@@ -160,6 +160,18 @@ async fn static_file(Path(path): Path<String>) -> impl IntoResponse {
     }
 }
 
+/// The route table of `start_server()` without a listener, so the simulator in
+/// /verif can drive the real handlers in-process.
+#[cfg(feature = "verif")]
+pub fn verif_router() -> Router {
+    Router::new()
+        .route("/", get(index))
+        .route("/favicon.ico", get(favicon))
+        .route("/static/{*path}", get(static_file))
+        .route("/svgdx-bootstrap.js", get(bootstrap))
+        .route("/api/transform", post(transform))
+}
+
 pub async fn start_server(listen_addr: Option<&str>, ready: Option<Sender<()>>) {
     let addr = listen_addr.unwrap_or("127.0.0.1:3003");
     let app = Router::new()
